@@ -116,10 +116,22 @@ func genFilterCase(r *rand.Rand) *jFilterCase {
 		if r.Intn(3) == 0 {
 			q += " WHERE " + c08Where(r)
 		}
-		q += c08Group(r, res)
+		grp := c08Group(r, res)
+		look := fa
+		if r.Intn(4) == 0 {
+			// HAVING together with a crosstab that adds totals: the predicate is evaluated on the row as a whole, which
+			// the HAVING-free query shows in its total_<field> column
+			if grp == "" {
+				grp = " GROUP BY CROSSTABT(d1, d2)"
+			} else {
+				grp += ", CROSSTABT(d1, d2)"
+			}
+			look = "total_" + fa
+		}
+		q += grp
 		op := c08Ops[r.Intn(len(c08Ops))]
 		bound := r.Intn(12) - 3
-		c.Pairs = append(c.Pairs, jFilterPair{Kind: "having", A: q, B: fmt.Sprintf("%s HAVING %s %s %d", q, fa, op, bound), Field: fa, Op: op, Bound: bound})
+		c.Pairs = append(c.Pairs, jFilterPair{Kind: "having", A: q, B: fmt.Sprintf("%s HAVING %s %s %d", q, fa, op, bound), Field: look, Op: op, Bound: bound})
 	}
 	for i := 0; i < 4; i++ { // IN-subquery
 		dims := []string{"d1", "d2", "d3"}
